@@ -48,7 +48,7 @@ class C07(Check):
     driver = "drv_c07"
     theorems = ["Pox.C07.sites_agree", "Pox.C07.sites_anchored", "Pox.C07.calllater_once", "Pox.C07.calllater_order",
                 "Pox.C07.sync_excludes", "Pox.C07.sync_mutual", "Pox.C07.schedule_atmost1", "Pox.C07.schedule_self_twice", "Pox.C07.schedule_hub_race_defect", "Pox.C07.schedule_wake_kept",
-                "Pox.C07.wake_noticed", "Pox.C07.incoming_noticed", "Pox.C07.hub_mode", "Pox.C07.lock_excl", "Pox.C07.lock_excl_multi", "Pox.C07.lock_handoff",
+                "Pox.C07.wake_noticed", "Pox.C07.incoming_noticed", "Pox.C07.hub_mode", "Pox.C07.lock_excl", "Pox.C07.lock_excl_multi", "Pox.C07.lock_handoff", "Pox.C07.lock_trylock", "Pox.C07.lock_waiters_exact",
                 "Pox.C07.lock_excl_needs_discipline"]
     anchors = []             # computed in setup(): the bodies of the functions listed in harness/translate/sites.py
     design_ref = "DESIGN.md §5 C07, Appendix B"
@@ -162,6 +162,7 @@ class C07(Check):
             cases.append({"kind": "hubrace", "seed": 0})
         cases += self.lock_corpus()
         cases += [{"kind": "pinger", "ops": ops} for ops in ([0, 1], [0, 0, 0, 1, 0, 1], [0] * 5 + [1, 0, 1, 0, 0, 1])]
+        cases += [{"kind": "pinger", "ops": [0] * n + [1, 0, 1]} for n in (1, 2, 1023, 1024, 1025, 2048, 2049)]     # around the read size
         return cases
 
     def burst_cases(self, sizes):
@@ -735,17 +736,25 @@ class C07(Check):
 
     # ------------------------------------------------------------------ implementation: pinger
     def run_pinger(self, case):
+        """the real PipePinger on a real OS pipe: ops 0 = ping, 1 = pongAll.  `pongAll` is called only when select reports
+        the pipe readable (as the scheduler and the hub do); the read end is switched to non-blocking for the call so that a
+        pongAll that would block — the thread would hang without any time-out — shows up as BlockingIOError instead."""
         p = self.util.make_pinger()
         out = []
-        n = 0
         for o in case["ops"]:
             if o == 0:
-                p.ping(); n += 1
+                p.ping()
             else:
                 r, _, _ = _select.select([p], [], [], 0)
                 if not r:
-                    return {"blocks": True}
-                p.pongAll()
+                    return {"blocks": True, "readable": out, "why": "pongAll on an empty pipe"}
+                os.set_blocking(p.fileno(), False)
+                try:
+                    p.pongAll()
+                except BlockingIOError:
+                    return {"blocks": True, "readable": out, "why": "pongAll blocks although the pipe was readable"}
+                finally:
+                    os.set_blocking(p.fileno(), True)
             r, _, _ = _select.select([p], [], [], 0)
             out.append(bool(r))
         return {"readable": out}
@@ -833,7 +842,7 @@ class C07(Check):
                 else: out.append({"res": "released", "woken": s["woken"], "holder": s["holder"], "waiting": s["waiting"]})
             return {"steps": out}
         if k == "pinger":
-            return obs
+            return {"blocks": True} if obs.get("blocks") else {"readable": obs["readable"]}
         return obs
 
     def model_obs(self, case, resp):
@@ -860,6 +869,8 @@ class C07(Check):
         if k == "hubrace":
             if obs["dup_ready_at_steps"]: return HUBRACE_KEY.split(":", 1)[1]
             if obs["thread_errors"]: return "exception left a thread"
+        if k == "pinger" and obs.get("blocks") and obs.get("why", "").startswith("pongAll blocks"):
+            return "pongAll blocks although the pipe was readable (the caller hangs without a time-out)"
         return None
 
     def oracle_threads(self, case, obs):
